@@ -99,6 +99,33 @@ def main():
                     continue
                 if not np.array_equal(od[nl:nl + n], c) or (od[:nl] != FILL).any() or (od[nl + n:] != FILL).any():
                     s.fail(f"extend_data:{step}", f"extend_dim moved or overwrote original samples (n={n}, kl={kl}, kr={kr})")
+    # ---- arrays with a second dimension: widths are counted along the named dimension, whatever the total number of elements
+    for n, nf, order in itertools.product([4, 9, 10], [1, 2, 4], [("time", "frequency"), ("frequency", "time")]):
+        tc = np.arange(n) * 0.5 + 1.0
+        vals = np.repeat(tc[:, None], nf, axis=1) if order[0] == "time" else np.repeat(tc[None, :], nf, axis=0)
+        arr2 = xr.DataArray(vals.astype(float), dims=order, coords={"time": create_range_dim("time", start=1.0, stop=1.0 + n * 0.5, step=0.5), "frequency": np.arange(nf) * 100.0})
+        for width in sorted({1, 2, n - 3, n - 1, n, n + 2}):
+            if width < 1:
+                continue
+            for pos in ("start", "center", "end"):
+                s.case(None, ("2d", n, nf, order[0], width, pos))
+                try:
+                    out = adjust_dim_width(arr2, "time", width, fill_value=FILL, position=pos)
+                except Exception as e:
+                    s.fail(f"width_2d_raises:{pos}:{type(e).__name__}", f"adjust_dim_width on a {n} x {nf} array (dims {order}), width={width}, {pos} raised {type(e).__name__}: {str(e)[:120]}")
+                    continue
+                if out.sizes["time"] != width or out.sizes["frequency"] != nf:
+                    s.fail(f"width_2d_size:{pos}:{'grow' if width > n else 'shrink'}", f"adjust_dim_width on a {n} x {nf} array (dims {order}), width={width}, position={pos}: sizes {dict(out.sizes)}")
+                    continue
+                col = out.isel(frequency=0)
+                oc, od = col.coords["time"].data, col.data
+                keep = od != FILL
+                if not np.array_equal(od[keep], oc[keep]):
+                    s.fail(f"width_2d_data:{pos}", f"{n} x {nf} array, width={width}, {pos}: data moved off its coordinate")
+                if width < n:
+                    exp0 = {"start": 0, "end": n - width, "center": n // 2 - width // 2}[pos]
+                    if oc[0] != tc[max(0, exp0)]:
+                        s.fail(f"width_2d_place:{pos}", f"{n} x {nf} array, width={width}, {pos}: cropped block starts at coordinate {oc[0]}, expected {tc[max(0, exp0)]}")
     # ---- sequences: the result of one operation is a legitimate input of the next (attributes written by a step must
     #      not mislead the following one)
     for start, step, n in itertools.product(STARTS, [1.0, 0.5, 0.1], [3, 6]):
